@@ -44,6 +44,32 @@ func simDebugMain(args []string) int {
 					break
 				}
 			}
+			if !found && strings.HasPrefix(tok, "KA(") {
+				// "node dies at its k-th storage point during <event>": KA(n1 a5 name during D(n1 1>0#0))
+				if i := strings.Index(tok, " during "); i > 0 {
+					inner := strings.TrimSuffix(tok[i+len(" during "):], ")")
+					for _, e := range ev {
+						if e.String() != inner {
+							continue
+						}
+						in := e
+						ka := simEvent{K: "KA", In: &in, Dev: e.Dev + 1}
+						fmt.Sscanf(tok, "KA(n%d", &ka.N)
+						ka.N--
+						for _, f := range strings.Fields(tok[:i]) {
+							if len(f) > 1 && f[0] == 'a' {
+								fmt.Sscanf(f[1:], "%d", &ka.A)
+							}
+						}
+						if err := s.apply(ka, false); err != nil {
+							fmt.Println("apply error:", tok, err)
+							return 1
+						}
+						found = true
+						break
+					}
+				}
+			}
 			if !found {
 				fmt.Println("event not enabled:", tok)
 				break
